@@ -5,7 +5,6 @@ import json
 NA_FIXED = {
     'C03': 'bit-exact numeric equality with an external C++ reference over 2^80 inputs: a value property; no static shape decides it (DESIGN.md section 6). The mode->function dispatch is decided under C02.',
     'C08': 'agreement of three run-time index computations (tile lookup, tilemap rasteriser, tileset slicing) incl. floor/ceil division on negative offsets: a value relation, not a shape (DESIGN.md section 6)',
-    'C09': 'correctness of the backwards parent search over all level sequences and of ancestor-visibility evaluation: algorithmic, over run-time data (DESIGN.md section 6); totality/stack-boundedness of that code is covered by C04/C05',
     'C18': 'pixel-exact output of extrude_border and tie/range rules of PaletteMapper: value-level; no structural necessary condition short of evaluating the arithmetic (DESIGN.md section 6)',
 }
 PENDING = 'check under construction (DESIGN.md Appendix C); not claimed yet'
@@ -18,6 +17,13 @@ CLAIMED = {
         note='Trusted: rustc MIR construction, the asemir driver, std Vec/Index semantics. Parameter positions of the public API (cel(frame, layer), Frame::layer(layer), Layer::frame(frame), tilemap(layer, frame)) are the oracle.',
         technique='static analysis: MIR origin/provenance dataflow + dominance (custom rustc_private driver)'),
 }
+
+CLAIMED['C09'] = dict(
+    category='other',
+    text='Static shape + provenance analysis over rustc MIR of the three functions that carry the property. compute_parents: one table entry per layer (enumerate over the whole slice, one push per iteration), the entry is None exactly under child_level == 0, otherwise the result of a last-match search (rposition) over the layers before it (take(id)) whose predicate is candidate.child_level < own child_level - by the documented meaning of rposition the nearest preceding layer with a smaller level, hence a lower id; no candidate is a ?-propagated error. Layer::parent() returns that entry for its own id. Layer::is_visible returns false only after a failed VISIBLE test of a member of the chain self, parent, grandparent, ... and true only at a member with no parent whose own test passed, the chain being loop-carried through the parents table (unbounded). frame_image draws a cel only under is_visible() of its layer. Decided for all level sequences because it is the shape of the search, not a sample of its results.',
+    design_ref='DESIGN.md section 13 (supersedes the not-applicable entry of section 4/6 for C09)',
+    note='Trusted: rustc MIR, the driver, the documented semantics of Iterator::enumerate/take/rposition (not analysed). The rule recognises the rposition form of the search and the loop (strongly) / recursive / iterator (weakly: unbounded walk + VISIBLE flag) forms of is_visible; a rewrite into a different algorithm is reported as an unrecognised form.',
+    technique='static analysis: MIR provenance terms, closure-body inspection, dominance/guards (custom rustc_private driver)')
 
 CLAIMED['C15'] = dict(
     category='other',
